@@ -9,6 +9,8 @@ package mem
 //@     (n.EndsAt > o.StartsAt && n.EndsAt < o.EndsAt) || (n.StartsAt > o.StartsAt && n.StartsAt < o.EndsAt)
 //@ func (*Alerts).Put
 //@   props C13
+//@   ensures [monitor-lock-released] count("Mutex).Lock") == count("Mutex).Unlock") && count("Mutex).Lock") == 1
+//@   at call store.Alerts).Get assert [monitor-lock-held] count("Mutex).Lock") == 1 && count("Mutex).Unlock") == 0
 //@   abstract
 //@   requires a != nil && a.alerts != nil && a.callback != nil && a.logger != nil && tracer != nil && ctx != nil && a.flagger != nil && a.alertsLimitedTotal != nil && a.propagator != nil && a.subscriberChannelWrites != nil
 //@   requires forall i int :: 0 <= i && i < len(alerts) ==> alerts[i] != nil
